@@ -542,6 +542,50 @@ struct Hooks {
     commits_at_snapshot: Arc<AtomicU64>,
     /// called inside the commit hook (before the commit is durable)
     at_commit: Arc<Mutex<Option<Box<dyn FnMut() + Send>>>>,
+    /// authorisations of row writes (INSERT / UPDATE / DELETE) asked so far while statements were compiled (counted only
+    /// once `install_authorizer` was called), the one to deny (0 = none), whether it was denied, and the row changes the
+    /// connection had made by then
+    auth_writes: Arc<AtomicU64>,
+    deny_at: Arc<AtomicU64>,
+    denied: Arc<AtomicBool>,
+    changes_at_deny: Arc<AtomicU64>,
+    /// when set, `segments` records the maximal runs of VM steps during which the same set of statements was running
+    log_statements: Arc<AtomicBool>,
+    segments: Arc<Mutex<Vec<Segment>>>,
+}
+
+/// A maximal run of VM steps with the same set of running statements.
+#[derive(Clone, Debug)]
+struct Segment {
+    first: u64,
+    last: u64,
+    /// identity of the set of running statements
+    key: u64,
+    /// one of them is an INSERT / UPDATE / DELETE / REPLACE
+    writes: bool,
+}
+
+impl Hooks {
+    /// Statement-level faults that leave the enclosing transaction OPEN (unlike SQLITE_INTERRUPT, which rolls an
+    /// explicit transaction back): the `deny_at`-th authorisation of a row write is refused, so the statement fails to
+    /// compile with SQLITE_AUTH and its caller sees an ordinary statement error.
+    fn install_authorizer(&self, conn: &Connection) {
+        use rusqlite::hooks::{AuthAction, AuthContext, Authorization};
+        let h = self.clone();
+        let raw = unsafe { conn.handle() } as usize;
+        conn.authorizer(Some(move |c: AuthContext<'_>| {
+            if matches!(c.action, AuthAction::Insert { .. } | AuthAction::Update { .. } | AuthAction::Delete { .. }) {
+                let n = h.auth_writes.fetch_add(1, Ordering::Relaxed) + 1;
+                if n == h.deny_at.load(Ordering::Relaxed) {
+                    h.denied.store(true, Ordering::Relaxed);
+                    let ch = unsafe { rusqlite::ffi::sqlite3_total_changes(raw as *mut rusqlite::ffi::sqlite3) };
+                    h.changes_at_deny.store(ch as u64, Ordering::Relaxed);
+                    return Authorization::Deny;
+                }
+            }
+            Authorization::Allow
+        }));
+    }
 }
 
 fn open_hooked(path: &Path, wal: bool) -> (Connection, Hooks) {
@@ -559,6 +603,29 @@ fn open_hooked(path: &Path, wal: bool) -> (Connection, Hooks) {
             1,
             Some(move || {
                 let n = h.steps.fetch_add(1, Ordering::Relaxed) + 1;
+                if h.log_statements.load(Ordering::Relaxed) {
+                    let (mut key, mut writes) = (0u64, false);
+                    unsafe {
+                        let db = raw as *mut rusqlite::ffi::sqlite3;
+                        let mut st = rusqlite::ffi::sqlite3_next_stmt(db, std::ptr::null_mut());
+                        while !st.is_null() {
+                            if rusqlite::ffi::sqlite3_stmt_busy(st) != 0 {
+                                key = key.wrapping_mul(0x100_0000_01b3).wrapping_add(st as usize as u64);
+                                let sql = rusqlite::ffi::sqlite3_sql(st);
+                                if !sql.is_null() {
+                                    let t = std::ffi::CStr::from_ptr(sql).to_string_lossy().trim_start().chars().take(8).collect::<String>().to_ascii_uppercase();
+                                    writes |= t.starts_with("INSERT") || t.starts_with("UPDATE") || t.starts_with("DELETE") || t.starts_with("REPLACE");
+                                }
+                            }
+                            st = rusqlite::ffi::sqlite3_next_stmt(db, st);
+                        }
+                    }
+                    let mut segs = h.segments.lock().unwrap();
+                    match segs.last_mut() {
+                        Some(last) if last.key == key => last.last = n,
+                        _ => segs.push(Segment { first: n, last: n, key, writes }),
+                    }
+                }
                 if n == h.snapshot_at.load(Ordering::Relaxed) {
                     h.commits_at_snapshot.store(h.commits.load(Ordering::Relaxed), Ordering::Relaxed);
                     if let Some(f) = h.snapshot.lock().unwrap().as_mut() {
@@ -638,12 +705,15 @@ fn open_hooked(path: &Path, wal: bool) -> (Connection, Hooks) {
 /// account UUIDs and pool-migration record UUIDs (drawn from the OS) and the row ids of `addresses` (gap addresses are generated in
 /// the iteration order of a `HashSet`, so their autoincrement ids — and references to them — vary
 /// between otherwise identical runs). An address row is identified by (account, scope, diversifier).
-fn canon_dump(path: &Path) -> Result<Dump, String> {
+/// `raw_len_only`: render `transactions.raw` by its length only. Needed where the operation extracts a transaction
+/// from a PCZT: the extractor draws the binding signature's randomness from the OS (`apply_binding_signature(.., OsRng)`),
+/// so the raw bytes (not the txid) of two extractions of the same PCZT differ in that signature.
+fn canon_dump_x(path: &Path, raw_len_only: bool) -> Result<Dump, String> {
     let conn = Connection::open_with_flags(path, rusqlite::OpenFlags::SQLITE_OPEN_READ_WRITE).map_err(|e| e.to_string())?;
-    Ok(canon_dump_conn(&conn))
+    Ok(canon_dump_conn_x(&conn, raw_len_only))
 }
 
-fn canon_dump_conn(conn: &Connection) -> Dump {
+fn canon_dump_conn_x(conn: &Connection, raw_len_only: bool) -> Dump {
     let mut addr: BTreeMap<String, String> = BTreeMap::new();
     if let Ok(mut st) = conn.prepare("SELECT id, account_id, key_scope, hex(diversifier_index_be), ifnull(hex(imported_transparent_receiver_pubkey), ''), ifnull(hex(imported_transparent_receiver_script), '') FROM addresses") {
         if let Ok(rows) = st.query_map([], |r| Ok((r.get::<_, i64>(0)?, r.get::<_, i64>(1)?, r.get::<_, i64>(2)?, r.get::<_, Option<String>>(3)?, r.get::<_, String>(4)?, r.get::<_, String>(5)?))) {
@@ -656,6 +726,7 @@ fn canon_dump_conn(conn: &Connection) -> Dump {
         ("accounts", "uuid") => "x'<uuid>'".to_string(),
         // the record id of a pool migration is `Uuid::new_v4()` (OS randomness), minted when the record is first persisted
         ("orchard_ironwood_migrations", "uuid") => "x'<uuid>'".to_string(),
+        ("transactions", "raw") if raw_len_only && v != "NULL" => format!("<raw: {} hex digits>", v.len().saturating_sub(3)),
         ("addresses", "id") => addr.get(&v).cloned().unwrap_or(v),
         (_, "address_id") => addr.get(&v).cloned().unwrap_or(v),
         _ => v,
@@ -885,6 +956,12 @@ struct OpUnderTest<'a> {
     /// rendering for messages
     desc: String,
     run: &'a (dyn Fn(&mut Connection) -> Result<String, String> + Sync),
+    /// see `canon_dump_x`
+    randomized_raw: bool,
+    /// record the statement segments of the reference run (`RefInfo::segments`)
+    log_statements: bool,
+    /// count the write authorisations of the reference run (`RefInfo::write_auths`), for `denied_write_position`
+    count_write_auths: bool,
 }
 
 /// What the reference run established.
@@ -898,6 +975,10 @@ struct RefInfo {
     changed: usize,
     crash_checked: u64,
     veto_checked: u64,
+    /// statement segments of the reference run (only with `OpUnderTest::log_statements`)
+    segments: Vec<Segment>,
+    /// write authorisations asked during the reference run (only with `OpUnderTest::count_write_auths`)
+    write_auths: u64,
 }
 
 #[derive(Default)]
@@ -909,13 +990,16 @@ struct PosStats {
     snapshots: u64,
     snapshots_after_commit: u64,
     snapshot_busy: u64,
+    denied: u64,
+    denied_mid_write: u64,
+    denied_failed: u64,
 }
 
 /// Reference run (VM steps, commits, crash copy at the commit boundary) and the vetoed commit.
 fn reference_checks(state_path: &Path, p: &dyn Fn(&str) -> PathBuf, op: &OpUnderTest) -> Result<RefInfo, Fail> {
     let kind = op.kind;
     // pre-state
-    let d0 = canon_dump(state_path).map_err(|e| Fail::new("harness-dump", e))?;
+    let d0 = canon_dump_x(state_path, op.randomized_raw).map_err(|e| Fail::new("harness-dump", e))?;
     for t in migration::MIGRATION_TABLES {
         vensure!(d0.contains_key(t), "harness-migration-table-missing", "the canonical dump has no table {t}");
     }
@@ -929,12 +1013,19 @@ fn reference_checks(state_path: &Path, p: &dyn Fn(&str) -> PathBuf, op: &OpUnder
         let dst = p("crash");
         *rh.at_commit.lock().unwrap() = Some(Box::new(move || copy_db(&src, &dst)));
     }
+    rh.log_statements.store(op.log_statements, Ordering::Relaxed);
+    if op.count_write_auths {
+        rh.install_authorizer(&rdb);
+    }
     let ref_res = catch(|| (op.run)(&mut rdb)).map_err(|pn| Fail::new(format!("panic-in-operation:{kind}"), format!("{} panicked: {pn}", op.desc)))?;
+    rh.log_statements.store(false, Ordering::Relaxed);
+    let segments = std::mem::take(&mut *rh.segments.lock().unwrap());
     let s = rh.steps.load(Ordering::Relaxed);
     let commits = rh.commits.load(Ordering::Relaxed);
     let empty_commits = rh.empty_commits.load(Ordering::Relaxed);
+    let write_auths = rh.auth_writes.load(Ordering::Relaxed);
     drop(rdb);
-    let dr = canon_dump(&p("ref")).map_err(|e| Fail::new("harness-dump", e))?;
+    let dr = canon_dump_x(&p("ref"), op.randomized_raw).map_err(|e| Fail::new("harness-dump", e))?;
     let changed = changed_rows(&d0, &dr);
     match &ref_res {
         Ok(_) => {
@@ -950,7 +1041,7 @@ fn reference_checks(state_path: &Path, p: &dyn Fn(&str) -> PathBuf, op: &OpUnder
     // crash copy taken inside the commit hook must recover to the pre-state
     let mut crash_checked = 0u64;
     if commits >= 1 && p("crash").exists() {
-        let dc = canon_dump(&p("crash")).map_err(|e| Fail::new("harness-dump", e))?;
+        let dc = canon_dump_x(&p("crash"), op.randomized_raw).map_err(|e| Fail::new("harness-dump", e))?;
         vensure!(dc == d0, format!("crash-at-commit-not-prestate:{kind}"), "a copy of the database taken at the commit boundary of {} recovers to a state that is not the pre-state: {}", op.desc, diff_dump(&d0, &dc));
         crash_checked = 1;
     }
@@ -963,12 +1054,12 @@ fn reference_checks(state_path: &Path, p: &dyn Fn(&str) -> PathBuf, op: &OpUnder
         vh.veto_commit.store(true, Ordering::Relaxed);
         let r = catch(|| (op.run)(&mut vdb)).map_err(|pn| Fail::new(format!("panic-on-commit-failure:{kind}"), format!("{} panicked when its commit failed: {pn}", op.desc)))?;
         drop(vdb);
-        let dv = canon_dump(&p("veto")).map_err(|e| Fail::new("harness-dump", e))?;
+        let dv = canon_dump_x(&p("veto"), op.randomized_raw).map_err(|e| Fail::new("harness-dump", e))?;
         vensure!(r.is_err(), format!("ok-despite-failed-commit:{kind}"), "{} returned Ok although its COMMIT was turned into a ROLLBACK", op.desc);
         vensure!(dv == d0, format!("failed-commit-changed-db:{kind}"), "{}: failed commit left changes: {}", op.desc, diff_dump(&d0, &dv));
         veto_checked = 1;
     }
-    Ok(RefInfo { d0, dr, ref_res, s, commits, changed, crash_checked, veto_checked })
+    Ok(RefInfo { d0, dr, ref_res, s, commits, changed, crash_checked, veto_checked, segments, write_auths })
 }
 
 /// One enumerated fault position: interrupt VM step `k` (optionally with a second-connection snapshot one step
@@ -986,6 +1077,7 @@ fn fault_position(state_path: &Path, p: &dyn Fn(&str) -> PathBuf, op: &OpUnderTe
         if with_snapshot && k > 1 {
             let path = p("flt");
             let slot = snap_result.clone();
+            let raw_len_only = op.randomized_raw;
             fh.snapshot_at.store(k - 1, Ordering::Relaxed);
             *fh.snapshot.lock().unwrap() = Some(Box::new(move || {
                 let r = (|| -> Result<Dump, String> {
@@ -996,7 +1088,7 @@ fn fault_position(state_path: &Path, p: &dyn Fn(&str) -> PathBuf, op: &OpUnderTe
                     let mut st = c.prepare("SELECT count(*) FROM sqlite_schema").map_err(|e| e.to_string())?;
                     let _: i64 = st.query_row([], |r| r.get(0)).map_err(|e| e.to_string())?;
                     drop(st);
-                    let d = canon_dump_conn(&c);
+                    let d = canon_dump_conn_x(&c, raw_len_only);
                     c.execute_batch("COMMIT").map_err(|e| e.to_string())?;
                     Ok(d)
                 })();
@@ -1033,7 +1125,7 @@ fn fault_position(state_path: &Path, p: &dyn Fn(&str) -> PathBuf, op: &OpUnderTe
         fh.snapshot_at.store(0, Ordering::Relaxed);
         let df = {
             // read through a second connection; the wallet connection is idle now
-            canon_dump(&p("flt")).map_err(|e| Fail::new("harness-dump", e))?
+            canon_dump_x(&p("flt"), op.randomized_raw).map_err(|e| Fail::new("harness-dump", e))?
         };
         match (&r, fired) {
             (Err(e), _) => {
@@ -1055,13 +1147,58 @@ fn fault_position(state_path: &Path, p: &dyn Fn(&str) -> PathBuf, op: &OpUnderTe
         if r.is_err() {
             let rr = catch(|| (op.run)(&mut fdb)).map_err(|pn| Fail::new(format!("panic-on-retry:{kind}"), format!("retry of {} panicked: {pn}", op.desc)))?;
             drop(fdb);
-            let dretry = canon_dump(&p("flt")).map_err(|e| Fail::new("harness-dump", e))?;
+            let dretry = canon_dump_x(&p("flt"), op.randomized_raw).map_err(|e| Fail::new("harness-dump", e))?;
             match (ref_res, &rr) {
                 (Ok(_), Ok(_)) => vensure!(dretry == *dr, format!("retry-differs:{kind}"), "{}: retry after a fault at step {k}/{s} does not reproduce the uninterrupted result: {}", op.desc, diff_dump(dr, &dretry)),
                 (Ok(_), Err(e)) => vfail!(format!("retry-fails:{kind}"), "{}: retry after a fault at step {k}/{s} failed: {e}", op.desc),
                 (Err(_), Err(_)) => vensure!(dretry == *d0, format!("retry-error-changed-db:{kind}"), "retry error changed db"),
                 (Err(e), Ok(_)) => vfail!(format!("retry-succeeds-where-reference-failed:{kind}"), "{}: reference failed ({e}) but the retry succeeded", op.desc),
             }
+        }
+    }
+    Ok(())
+}
+
+/// One "denied write" position: the `j`-th authorisation of a row write is refused (`Hooks::install_authorizer`), so
+/// one statement of the operation fails while its transaction stays open. Same oracle as for an interrupted VM step.
+fn denied_write_position(state_path: &Path, p: &dyn Fn(&str) -> PathBuf, op: &OpUnderTest, info: &RefInfo, j: u64, st: &mut PosStats) -> Result<(), Fail> {
+    let kind = op.kind;
+    let RefInfo { d0, dr, ref_res, write_auths, .. } = info;
+    copy_db(state_path, &p("flt"));
+    let (mut fdb, fh) = open_hooked(&p("flt"), false);
+    fh.install_authorizer(&fdb);
+    fh.deny_at.store(j, Ordering::Relaxed);
+    let r = catch(|| (op.run)(&mut fdb)).map_err(|pn| Fail::new(format!("panic-on-denied-write:{kind}"), format!("{} panicked when write statement #{j}/{write_auths} failed: {pn}", op.desc)))?;
+    fh.deny_at.store(0, Ordering::Relaxed);
+    let denied = fh.denied.load(Ordering::Relaxed);
+    if denied {
+        st.denied += 1;
+        if fh.changes_at_deny.load(Ordering::Relaxed) > 0 {
+            st.denied_mid_write += 1;
+        }
+    }
+    let df = canon_dump_x(&p("flt"), op.randomized_raw).map_err(|e| Fail::new("harness-dump", e))?;
+    match (&r, denied) {
+        (Err(e), _) => {
+            st.denied_failed += 1;
+            vensure!(df == *d0, format!("partial-state-after-failed-statement:{kind}"), "{}: write statement #{j}/{write_auths} was made to fail (SQLITE_AUTH), the operation failed ({e}), but the database changed: {}", op.desc, diff_dump(d0, &df));
+        }
+        (Ok(_), true) => {
+            vensure!(df == *dr, format!("ok-with-third-state-after-failed-statement:{kind}"), "{}: write statement #{j}/{write_auths} was made to fail (SQLITE_AUTH), the operation still returned Ok, and the state is neither the pre-state nor the reference result: {}", op.desc, diff_dump(dr, &df));
+        }
+        (Ok(_), false) => {
+            vensure!(df == *dr, format!("nondeterministic-operation:{kind}"), "{}: run without a fault differs from the reference run: {}", op.desc, diff_dump(dr, &df));
+        }
+    }
+    if r.is_err() {
+        let rr = catch(|| (op.run)(&mut fdb)).map_err(|pn| Fail::new(format!("panic-on-retry:{kind}"), format!("retry of {} panicked: {pn}", op.desc)))?;
+        drop(fdb);
+        let dretry = canon_dump_x(&p("flt"), op.randomized_raw).map_err(|e| Fail::new("harness-dump", e))?;
+        match (ref_res, &rr) {
+            (Ok(_), Ok(_)) => vensure!(dretry == *dr, format!("retry-differs:{kind}"), "{}: retry after failed write statement #{j} does not reproduce the uninterrupted result: {}", op.desc, diff_dump(dr, &dretry)),
+            (Ok(_), Err(e)) => vfail!(format!("retry-fails:{kind}"), "{}: retry after failed write statement #{j} failed: {e}", op.desc),
+            (Err(_), Err(_)) => vensure!(dretry == *d0, format!("retry-error-changed-db:{kind}"), "retry error changed db"),
+            (Err(e), Ok(_)) => vfail!(format!("retry-succeeds-where-reference-failed:{kind}"), "{}: reference failed ({e}) but the retry succeeded", op.desc),
         }
     }
     Ok(())
@@ -1082,7 +1219,10 @@ fn run_case(ctx: &Ctx, case: &C02Case) -> CaseResult {
     let kind = op_kind(&case.op);
     let dense = ctx.tier == vcore::Tier::Thorough;
     let run = |conn: &mut Connection| run_op(conn, &case.op, &oc);
-    let op = OpUnderTest { kind, desc: format!("{:?}", case.op), run: &run };
+    // failed-statement faults (a write statement refused by the authorizer) are enumerated for the pool-migration store's
+    // operations: nothing in the store is entitled to ignore a failed statement
+    let is_store_op = matches!(case.op, WOp::Mig(_));
+    let op = OpUnderTest { kind, desc: format!("{:?}", case.op), run: &run, randomized_raw: false, log_statements: false, count_write_auths: is_store_op };
 
     let info = reference_checks(&state_path, &p, &op)?;
     // ---- fault enumeration (writer-side snapshot before every 4th position) ----------------------------
@@ -1090,8 +1230,21 @@ fn run_case(ctx: &Ctx, case: &C02Case) -> CaseResult {
     for (pi, k) in positions(info.s, &case.pos_sel, dense).iter().enumerate() {
         fault_position(&state_path, &p, &op, &info, *k, pi % 4 == 0, &mut st)?;
     }
+    // ---- failed write statements: all if there are at most 8 (thorough: 48), else the first and last 2 + generated ones
+    if is_store_op && info.write_auths > 0 {
+        let w = info.write_auths;
+        let budget = if dense { 48 } else { 8 };
+        let js: std::collections::BTreeSet<u64> = if w <= budget {
+            (1..=w).collect()
+        } else {
+            [1, 2, w - 1, w].into_iter().chain(case.pos_sel.iter().cycle().take(budget as usize - 4).enumerate().map(|(i, x)| 1 + (((*x as u64).wrapping_add(i as u64 * 0x9e37_79b9) % (1 << 32)) * w >> 32))).collect()
+        };
+        for j in js {
+            denied_write_position(&state_path, &p, &op, &info, j, &mut st)?;
+        }
+    }
     let RefInfo { d0, dr, ref_res, s, changed, crash_checked, veto_checked, .. } = info;
-    let PosStats { injected, errs, swallowed, mid_write, snapshots, snapshots_after_commit, snapshot_busy } = st;
+    let PosStats { injected, errs, swallowed, mid_write, snapshots, snapshots_after_commit, snapshot_busy, denied, denied_mid_write, denied_failed } = st;
 
     let nontrivial = changed >= 2 && mid_write > 0;
     // generator health of the pool-migration part
@@ -1120,6 +1273,9 @@ fn run_case(ctx: &Ctx, case: &C02Case) -> CaseResult {
         .count("positions-injected", injected)
         .count("faulted-runs-failed", errs)
         .count("faults-after-first-write", mid_write)
+        .count("write-statements-made-to-fail", denied)
+        .count("write-statements-made-to-fail-after-first-write", denied_mid_write)
+        .count("failed-statement-runs-failed", denied_failed)
         .count("snapshots-compared", snapshots)
         .count("snapshots-after-commit", snapshots_after_commit)
         .count("snapshots-busy", snapshot_busy)
@@ -1460,30 +1616,47 @@ fn run_real_proof_subcheck(ctx: &Arc<Ctx>) {
     let pre = {
         let p = files(u64::MAX);
         let _cleanup = TempFiles(vec![p("ref"), p("crash"), p("veto")]);
-        reference_checks(&fx.path, &p, &OpUnderTest { kind, desc: desc.clone(), run: &run })
+        reference_checks(&fx.path, &p, &OpUnderTest { kind, desc: desc.clone(), run: &run, randomized_raw: true, log_statements: true, count_write_auths: true })
     };
     let dense = ctx.tier == vcore::Tier::Thorough;
-    let pos: Vec<u64> = match &pre {
+    // Positions. This sub-check has ONE (state, operation) pair, so nothing averages out over cases: besides a thinned
+    // generic sample, one fault is aimed at the middle of (quick: every second; thorough: every) run of VM steps during
+    // which a writing statement was executing, so that every INSERT / UPDATE / DELETE of the operation is made to fail.
+    // Each evaluation builds the Orchard verifying key and re-verifies a 16-action proof twice (seconds of CPU).
+    let (pos, write_segments): (Vec<u64>, u64) = match &pre {
         Ok(info) => {
-            let all = positions(info.s, &[0x1357_9bdf, 0x2468_ace0, 0x0f0f_0f0f, 0xf0f0_f0f0, 0x7fff_ffff, 0x8000_0001], dense);
-            if dense {
-                all
-            } else {
-                // quick: every third of the sampled positions (each evaluation re-verifies a 16-action proof twice)
-                all.into_iter().step_by(3).collect()
+            let mut set: std::collections::BTreeSet<u64> = positions(info.s, &[0x1357_9bdf, 0x2468_ace0, 0x0f0f_0f0f, 0xf0f0_f0f0, 0x7fff_ffff, 0x8000_0001], dense).into_iter().step_by(if dense { 3 } else { 8 }).collect();
+            let ws: Vec<&Segment> = info.segments.iter().filter(|g| g.writes).collect();
+            // (quick: every fourth one, rotating with the run seed)
+            for g in ws.iter().skip(if dense { 0 } else { (ctx.seed % 4) as usize }).step_by(if dense { 1 } else { 4 }) {
+                set.insert((g.first + g.last) / 2);
             }
+            (set.into_iter().collect(), ws.len() as u64)
+        }
+        Err(_) => (vec![], 0),
+    };
+    // failed write statements: every one of them (quick: every fourth one, rotating with the run seed, plus the last two)
+    let deny: Vec<u64> = match &pre {
+        Ok(info) => {
+            let w = info.write_auths;
+            let mut set: std::collections::BTreeSet<u64> = (1..=w).skip(if dense { 0 } else { (ctx.seed % 4) as usize }).step_by(if dense { 1 } else { 4 }).collect();
+            set.extend([w.saturating_sub(1).max(1), w.max(1)]);
+            if w == 0 {
+                set.clear();
+            }
+            set.into_iter().collect()
         }
         Err(_) => vec![],
     };
-    let n = 1 + pos.len() as u64;
+    let n = 1 + pos.len() as u64 + deny.len() as u64;
     ctx.run_enum(
         REAL_PROOF_SUB,
         n,
-        true,
+        false, // the positions are a sample of the operation's VM steps
         |i| {
             let p = files(i);
             let _cleanup = TempFiles(vec![p("ref"), p("flt"), p("crash"), p("veto")]);
-            let op = OpUnderTest { kind, desc: desc.clone(), run: &run };
+            let op = OpUnderTest { kind, desc: desc.clone(), run: &run, randomized_raw: true, log_statements: false, count_write_auths: i == 0 };
             if i == 0 {
                 let info = reference_checks(&fx.path, &p, &op)?;
                 vensure!(info.ref_res.is_ok(), "harness-real-proof-take-fails", "take_transaction_for_broadcast on the fixture failed: {:?}", info.ref_res);
@@ -1492,16 +1665,28 @@ fn run_real_proof_subcheck(ctx: &Arc<Ctx>) {
                 return Ok(Obs::new(info.changed >= 2)
                     .label(kind)
                     .label_if(wallet_tables_changed, "take-writes-wallet-tables")
-                    .label_if(mig_tables_changed, "take-writes-migration-tables")
+                    // (the migration rows are rewritten with the very state they hold, so they rarely differ afterwards)
+                    .label_if(mig_tables_changed, "take-changes-migration-tables")
                     .count("vm-steps", info.s)
+                    .count("write-statement-segments", write_segments)
+                    .count("write-authorisations", info.write_auths)
                     .count("commit-vetoes", info.veto_checked)
                     .count("crash-copies-recovered", info.crash_checked)
                     .count("rows-changed-by-reference", info.changed as u64));
             }
             let info = pre.as_ref().map_err(|f| Fail::new(f.signature.clone(), f.msg.clone()))?;
             let mut st = PosStats::default();
-            fault_position(&fx.path, &p, &op, info, pos[i as usize - 1], true, &mut st)?;
-            Ok(Obs::new(st.mid_write > 0)
+            let i = i as usize - 1;
+            if i < pos.len() {
+                fault_position(&fx.path, &p, &op, info, pos[i], true, &mut st)?;
+            } else {
+                denied_write_position(&fx.path, &p, &op, info, deny[i - pos.len()], &mut st)?;
+            }
+            Ok(Obs::new(st.mid_write > 0 || st.denied_mid_write > 0)
+                .label_if(st.denied_mid_write > 0, "failed-statement-between-writes")
+                .count("write-statements-made-to-fail", st.denied)
+                .count("write-statements-made-to-fail-after-first-write", st.denied_mid_write)
+                .count("failed-statement-runs-failed", st.denied_failed)
                 .label_if(st.mid_write > 0, "fault-between-writes")
                 .label_if(st.swallowed > 0, "interrupt-swallowed-ok")
                 .count("positions-injected", st.injected)
@@ -1511,11 +1696,18 @@ fn run_real_proof_subcheck(ctx: &Arc<Ctx>) {
                 .count("snapshots-after-commit", st.snapshots_after_commit)
                 .count("snapshots-busy", st.snapshot_busy))
         },
-        |i| if i == 0 { "reference run, crash copy, vetoed commit".to_string() } else { format!("fault position #{i}") },
+        |i| {
+            if i == 0 {
+                "reference run, crash copy, vetoed commit".to_string()
+            } else if (i as usize) <= pos.len() {
+                format!("interrupt at VM step {}", pos[i as usize - 1])
+            } else {
+                format!("failed write statement #{}", deny[i as usize - 1 - pos.len()])
+            }
+        },
     );
     ctx.extra("real_proof_fixture", serde_json::json!({ "scenario": "single minimum-denomination note; first preparation proved", "build_seconds": fx.build_seconds }));
     ctx.require_min_count(REAL_PROOF_SUB, "take-writes-wallet-tables", 1);
-    ctx.require_min_count(REAL_PROOF_SUB, "take-writes-migration-tables", 1);
     ctx.require_min_count(REAL_PROOF_SUB, "faults-after-first-write", ctx.tier.pick(3, 20));
     real_proof::cleanup();
 }
@@ -1541,9 +1733,16 @@ fn main() {
          every transaction proved and holding a token). reader-snapshot-migration: check_step_satisfiability for up to 4 generated transactions, mined_height for up to 3 txids and \
          (inside one caller-opened transaction) get_migration + latest_migration + list_migrations on one WAL connection while a put_blocks / truncation / rewind / \
          set_transaction_status / store write commits on another at sampled reader steps inside the calls whose answer the write changes; non-trivial = at least one such call \
-         was compared.",
+         was compared. For the store's own operations a second fault kind is enumerated besides the interrupted VM step: the j-th authorisation of a row write (INSERT / UPDATE / \
+         DELETE, asked by SQLite while the statement is compiled) is refused, so that one statement fails with SQLITE_AUTH while its transaction stays open (all j if there are at \
+         most 8, else the first and last two + generated ones; thorough 48). take-for-broadcast-real-proof (enumeration over fault positions of ONE pair): state = an NU6.3 wallet \
+         with a committed migration whose first preparation transaction carries a real 16-action Orchard proof (built once per process with the repository's own test pipeline); \
+         operation = take_transaction_for_broadcast; index 0 = reference run + crash copy + vetoed commit, the other indices = one interrupt each (a thinned generic sample of VM \
+         steps + the middle of the runs of steps during which a writing statement executed; quick: every fourth such run, rotating with the seed) or one failed write statement \
+         each (quick: every fourth + the last two).",
     );
-    ctx.assume("SQLITE_INTERRUPT injected through the progress handler stands for any statement-level failure; torn pages / fsync ordering inside SQLite's commit are SQLite's contract and are not simulated");
+    ctx.assume("SQLITE_INTERRUPT injected through the progress handler stands for any failure that aborts the statement AND rolls the enclosing transaction back (I/O error, full disk); a write statement refused by the authorizer (SQLITE_AUTH at prepare; pool-migration store operations only) stands for a failure of one statement that leaves the transaction open (constraint violation, conversion error); torn pages / fsync ordering inside SQLite's commit are SQLite's contract and are not simulated");
+    ctx.assume("take_transaction_for_broadcast extracts the transaction with a binding signature whose randomness comes from the OS, so transactions.raw is compared by length in that sub-check (the txid and every other column are compared exactly)");
     ctx.assume("account UUIDs and pool-migration record UUIDs (OS randomness) are normalised in dumps; everything else is deterministic (FixedClock, seeded ChaCha)");
     ctx.assume("advance_migration performs at most one store write per call (rustdoc: the state is written back with replace_migration before the step is returned, nothing is written when nothing was discovered), so the one-commit rule applies to it unchanged; a commit that changed no row (an autocommit statement that matched nothing) counts as leaving the database as it was");
     ctx.assume("get_migration / latest_migration / list_migrations are not documented as snapshots; they are read inside a caller-opened transaction (AGENTS.md, Database Write Atomicity), and a store handle's account row is resolved when the handle is created");
